@@ -143,6 +143,15 @@ theorem lstep_shareAll (s self : Nat) (v : Val) : ∀ (sibs : List Desc) (st : S
     · have h1 := lstep_shareInstance st L s d d.ident v
       exact h1.trans (hrest _ h1.ledger)
 
+theorem lstep_markAbsent (st : State) (L : Ledger st) (s : Nat) (sibs0 : List Desc) (nil? : Option Nat) :
+    LStep st (markAbsent st s sibs0 nil?) := by
+  unfold markAbsent
+  split
+  · split
+    · exact lstep_shareInstance st L s _ _ _
+    · exact LStep.refl L
+  · exact LStep.refl L
+
 /-- what a step may do to the other instances: nothing -/
 def Untouched (st st' : State) (i : Inst) : Prop :=
   ∀ j, j ≠ i → (Tracked st' j ↔ Tracked st j) ∧ closedCount st'.log j = closedCount st.log j
@@ -420,6 +429,7 @@ theorem ledger_frame (beh : Beh) : ∀ fuel,
       next hl =>
         split
         · exact LStep.refl L
+        · exact LStep.refl L
         · exact ihC st s d wf is L hs hd (by rw [hl]; simp)
       next hl => exact ihC st s d wf is L hs hd (by rw [hl]; simp)
     · intro st s ty grp wf is L hs
@@ -499,13 +509,13 @@ theorem ledger_frame (beh : Beh) : ∀ fuel,
                 split
                 · intro sd hsd; simp at hsd; subst hsd; exact hl
                 · exact hsibs
-              have hmulti : ∀ sibs' : List Desc, (∀ sd ∈ sibs', sd.life ≠ .singleton) →
-                  LStep st (storeOuts
+              have hmulti : ∀ (sibs' sibs0 : List Desc) (nil? : Option Nat), (∀ sd ∈ sibs', sd.life ≠ .singleton) →
+                  LStep st (markAbsent (storeOuts
                     (logEv (alloc (bumpInv ra.1 d.ctor) sibs'.length d.ctor ((bumpInv ra.1 d.ctor).invs d.ctor))
                       (.ctor d.id d.ctor ((bumpInv ra.1 d.ctor).invs d.ctor) s args
                         (allocOuts (bumpInv ra.1 d.ctor).next sibs'.length)))
-                    s sibs' (allocOuts (bumpInv ra.1 d.ctor).next sibs'.length)).1 := by
-                intro sibs' hlife'
+                    s sibs' (allocOuts (bumpInv ra.1 d.ctor).next sibs'.length)).1 s sibs0 nil?) := by
+                intro sibs' sibs0 nil? hlife'
                 have h3a := lstep_alloc _ h2.ledger sibs'.length d.ctor ((bumpInv ra.1 d.ctor).invs d.ctor)
                 have h3 := h3a.trans (lstep_logCtor _ h3a.ledger d.id d.ctor ((bumpInv ra.1 d.ctor).invs d.ctor) s args
                   (allocOuts (bumpInv ra.1 d.ctor).next sibs'.length))
@@ -524,10 +534,12 @@ theorem ledger_frame (beh : Beh) : ∀ fuel,
                   rw [closedCount_append, closedCount_ctor]; exact hf2.2
                 obtain ⟨h4, _⟩ := storeOuts_lstep s sibs' (allocOuts (bumpInv ra.1 d.ctor).next sibs'.length) _ h3.ledger hs2
                   hlife' (allocOuts_nodup _ _) hfr
-                exact (h2.trans h3).trans h4
+                exact ((h2.trans h3).trans h4).trans (lstep_markAbsent _ h4.ledger s sibs0 nil?)
+              generalize (if (d.sibs.filterMap (findDesc (bumpInv ra.1 d.ctor).descs)).isEmpty then [d]
+                  else d.sibs.filterMap (findDesc (bumpInv ra.1 d.ctor).descs)) = sibs0 at h0 ⊢
               cases hnf : beh.nilField d.ctor ((bumpInv ra.1 d.ctor).invs d.ctor) with
-              | none => exact hmulti _ h0
-              | some k => exact hmulti _ (fun sd hsd => h0 sd (List.mem_of_mem_eraseIdx hsd))
+              | none => exact hmulti sibs0 sibs0 none h0
+              | some k => exact hmulti (sibs0.eraseIdx k) sibs0 (some k) (fun sd hsd => h0 sd (List.mem_of_mem_eraseIdx hsd))
             · -- plain
               have h3a := lstep_alloc _ h2.ledger 1 d.ctor ((bumpInv ra.1 d.ctor).invs d.ctor)
               have h3 := h3a.trans (lstep_logCtor _ h3a.ledger d.id d.ctor ((bumpInv ra.1 d.ctor).invs d.ctor) s args
@@ -1004,6 +1016,15 @@ theorem allSame_shareAll (s self : Nat) (v : Val) : ∀ (sibs : List Desc) (st :
       obtain ⟨a2, n2⟩ := hrest (shareInstance st s d d.ident v)
       exact ⟨a1.trans a2, n2.trans n1⟩
 
+theorem allSame_markAbsent (st : State) (s : Nat) (sibs0 : List Desc) (nil? : Option Nat) :
+    AllSame st (markAbsent st s sibs0 nil?) ∧ (markAbsent st s sibs0 nil?).next = st.next := by
+  unfold markAbsent
+  split
+  · split
+    · exact allSame_shareInstance st s _ _ _
+    · exact ⟨AllSame.refl st, rfl⟩
+  · exact ⟨AllSame.refl st, rfl⟩
+
 theorem untouched_of_allSame {st st' : State} (h : AllSame st st') (i : Inst) : Untouched st st' i := fun j _ => h j
 
 theorem Untouched.trans_all {a b c : State} {i : Inst} (h1 : AllSame a b) (h2 : Untouched b c i) : Untouched a c i :=
@@ -1138,12 +1159,13 @@ theorem create_tail_old (beh : Beh) (f : Nat) (st : State) (s : Nat) (d : Desc) 
             (fun i h => by cases h)
           exact (h2.trans ((allSame_logCtor _ _ _ _ _ _ _).old (Nat.le_refl _))).trans (a.old (Nat.le_of_eq n.symm))
         · -- multi
-          have hmulti : ∀ sibs' : List Desc, OldSame st (storeOuts
+          have hmulti : ∀ (sibs' sibs0 : List Desc) (nil? : Option Nat), OldSame st (markAbsent (storeOuts
               (logEv (alloc (bumpInv ra.1 d.ctor) sibs'.length d.ctor ((bumpInv ra.1 d.ctor).invs d.ctor))
                 (.ctor d.id d.ctor ((bumpInv ra.1 d.ctor).invs d.ctor) s args
                   (allocOuts (bumpInv ra.1 d.ctor).next sibs'.length)))
-              s sibs' (allocOuts (bumpInv ra.1 d.ctor).next sibs'.length)).1 := by
-            intro sibs'
+              s sibs' (allocOuts (bumpInv ra.1 d.ctor).next sibs'.length)).1 s sibs0 nil?) := by
+            intro sibs' sibs0 nil?
+            refine OldSame.trans ?_ ((allSame_markAbsent _ s sibs0 nil?).1.old (Nat.le_of_eq (allSame_markAbsent _ s sibs0 nil?).2.symm))
             obtain ⟨u, n⟩ := storeOuts_untouched s sibs' (allocOuts (bumpInv ra.1 d.ctor).next sibs'.length)
               (logEv (alloc (bumpInv ra.1 d.ctor) sibs'.length d.ctor ((bumpInv ra.1 d.ctor).invs d.ctor))
                 (.ctor d.id d.ctor ((bumpInv ra.1 d.ctor).invs d.ctor) s args
@@ -1161,9 +1183,11 @@ theorem create_tail_old (beh : Beh) (f : Nat) (st : State) (s : Nat) (d : Desc) 
             obtain ⟨x1, y1⟩ := h3.same j hj
             obtain ⟨x2, y2⟩ := u j hjn
             exact ⟨x2.trans x1, y2.trans y1⟩
+          generalize (if (d.sibs.filterMap (findDesc (bumpInv ra.1 d.ctor).descs)).isEmpty then [d]
+              else d.sibs.filterMap (findDesc (bumpInv ra.1 d.ctor).descs)) = sibs0
           cases beh.nilField d.ctor ((bumpInv ra.1 d.ctor).invs d.ctor) with
-          | none => exact hmulti _
-          | some k => exact hmulti _
+          | none => exact hmulti sibs0 sibs0 none
+          | some k => exact hmulti (sibs0.eraseIdx k) sibs0 (some k)
         · -- plain
           have h3 : OldSame st (logEv (alloc (bumpInv ra.1 d.ctor) 1 d.ctor ((bumpInv ra.1 d.ctor).invs d.ctor))
               (.ctor d.id d.ctor ((bumpInv ra.1 d.ctor).invs d.ctor) s args [(bumpInv ra.1 d.ctor).next])) :=
@@ -1243,6 +1267,7 @@ theorem old_frame (beh : Beh) : ∀ fuel,
       · split <;> exact OldSame.refl _
       next hl =>
         split
+        · exact OldSame.refl _
         · exact OldSame.refl _
         · exact ihC st s d wf is (hk (by rw [hl]; simp))
       next hl => exact ihC st s d wf is (hk (by rw [hl]; simp))
